@@ -29,3 +29,4 @@ def run(res):
     st = replay.run_paths(g, lambda: BisectAdapter(desper), replay.edge_paths(g))
     res.absorb(st, 'c07_bisect:every-input', g)
     wc.trace_validate(res, 'c07_recorded', wc.big({'proc', 'process', 'fault', 'toggle', 'clear', 'inframe'}), 2000 if th else 150, 60)
+    wc.repo_tests_validate(res)
